@@ -1,6 +1,7 @@
 package redis
 
 import (
+	"crypto/tls"
 	"fmt"
 	red "github.com/go-redis/redis/v8"
 	"github.com/gotid/god/lib/logx"
@@ -15,6 +16,10 @@ type ClosableNode interface {
 // CreateBlockingNode 返回一个可关闭的阻塞节点 ClosableNode。
 func CreateBlockingNode(r *Redis) (ClosableNode, error) {
 	timeout := readWriteTimeout + blockingQueryTimeout
+	var tlsConfig *tls.Config
+	if r.tls {
+		tlsConfig = &tls.Config{InsecureSkipVerify: true}
+	}
 
 	switch r.Type {
 	case NodeType:
@@ -26,6 +31,7 @@ func CreateBlockingNode(r *Redis) (ClosableNode, error) {
 			PoolSize:     1,
 			MinIdleConns: 1,
 			ReadTimeout:  timeout,
+			TLSConfig:    tlsConfig,
 		})
 		return &clientBridge{client}, nil
 	case ClusterType:
@@ -36,6 +42,7 @@ func CreateBlockingNode(r *Redis) (ClosableNode, error) {
 			PoolSize:     1,
 			MinIdleConns: 1,
 			ReadTimeout:  timeout,
+			TLSConfig:    tlsConfig,
 		})
 		return &clusterBridge{client}, nil
 	default:
